@@ -283,6 +283,7 @@ def placement_tag(A, B):
 
 def check(run):
     run.prove(MODULE, THEOREMS)
+    run.corpus(impl, spec)
     rng = run.rng
 
     # 1. segment/segment: every ordered pair of segments with end points on a 3x3 grid (exhaustive)
